@@ -7,10 +7,11 @@ import (
 	"fmt"
 	"math/big"
 	"math/rand/v2"
+	"strings"
 
 	"github.com/bnb-chain/tss-lib/v2/common"
 	eckg "github.com/bnb-chain/tss-lib/v2/ecdsa/keygen"
-	ecsg "github.com/bnb-chain/tss-lib/v2/ecdsa/signing"
+	ecsg"github.com/bnb-chain/tss-lib/v2/ecdsa/signing"
 	edkg "github.com/bnb-chain/tss-lib/v2/eddsa/keygen"
 	"github.com/bnb-chain/tss-lib/v2/tss"
 )
@@ -54,6 +55,9 @@ func (s *KeyStore) Crash() {
 }
 
 func genC20(tier string, seed uint64, run int) *Scenario {
+	if strings.HasSuffix(tier, "-race") {
+		return genC20Race(seed, run)
+	}
 	r := rand.New(rand.NewPCG(seedFor(seed, "C20", run, "gen"), 1))
 	ec := run%4 == 3
 	p := map[string]interface{}{}
